@@ -362,7 +362,8 @@ func readCfg() (map[string]*CheckCfg, *KnownFile) {
 }
 
 func newSession(ld *loaded, rc RunCfg, harness, prop string, known []interp.Known) *interp.Session {
-	fn := ld.pkg.Func(harness)
+	fname, arg, hasArg := strings.Cut(harness, "@")
+	fn := ld.pkg.Func(fname)
 	if fn == nil {
 		fmt.Fprintf(os.Stderr, "INCONCLUSIVE: harness %s not found in %s\n", harness, ld.pkg.Pkg.Path())
 		os.Exit(2)
@@ -377,6 +378,9 @@ func newSession(ld *loaded, rc RunCfg, harness, prop string, known []interp.Know
 		Known: known, Stubs: ld.stubs, InlineGo: rc.InlineGo,
 		IntrinsicPkgs: map[string]bool{ld.pkg.Pkg.Path(): true},
 		WantSample:    rc.Samples,
+	}
+	if hasArg {
+		s.Arg = &arg
 	}
 	if mp := os.Getenv("VERIF_MAXPATHS"); mp != "" {
 		s.MaxPaths, _ = strconv.Atoi(mp)
